@@ -18,6 +18,8 @@ LEVEL = "exploration"
 
 PROCS = int(os.environ.get("C15_PROCS") or 0)
 
+REPEAT = 10
+
 TIERS = {
     #            M: seeded blocks, grid step   G: packets   harness: fuzz inputs   processes
     "quick":    {"mc_n": 500,  "mc_step": 2048, "packets": 6000,   "fuzz": 60000,  "procs": 4},
@@ -93,13 +95,18 @@ def signature(ev, clause):
     if clause == "track_range":
         t = ev["r"]["track"]
         sig["band"] = "within_-180_540" if t["k"] == "num" and -180000 < t["v"] < 540000 else "beyond"
+    if clause in ROUND_TRIP and str(ev.get("fam", "")).startswith("twin"):
+        sig["family"] = "twin_pair"
     if clause == "ref_echo_finite":
         inp = ev.get("refcls", ["finite", "finite"])
         sig["reference_given"] = "nonfinite" if ("nan" in inp or "inf" in inp) else "finite"
     return sig
 
 
+ROUND_TRIP = {"decodes", "address", "address_kind", "type", "flags", "altitude", "position"}
+
 EXPLAIN = {
+    "deterministic": "the same (bytes, time, reference) decoded twice in one run gave two different results",
     "outcome": "the call panicked (or the outcome is not a record / an error)",
     "decodes": "a well-formed packet built by Flarm.tla was not decoded",
     "finite": "a number of the record is not finite",
@@ -117,6 +124,8 @@ EXPLAIN = {
 def judge(run, events, rejected):
     for i in sorted(rejected):
         ev, clauses = events[i - 1], rejected[i]
+        # decoding may depend on the calls made before (that is a defect): keep the call before
+        context = [input_of(events[i - 2])] if i >= 2 else []
         if "binding" in clauses:
             raise core.ToolError(f"event {i} is not bound to the specification "
                                  f"(packet differs from Packet(p) or tuple out of scope): {json.dumps(ev)[:400]}")
@@ -124,13 +133,14 @@ def judge(run, events, rejected):
             run.report(signature(ev, c),
                        {"event": ev, "index": i, "clauses": sorted(clauses),
                         "explain": EXPLAIN.get(c, c),
+                        "context": context,
                         "input": input_of(ev)})
 
 
 def input_of(ev):
     """The harness input line that reproduces an event."""
     if ev["e"] == "rt":
-        return {"i": ev.get("i", 0), "p": ev["p"], "pkt": ev["pkt"]}
+        return {"i": ev.get("i", 0), "fam": ev.get("fam", "plain"), "p": ev["p"], "pkt": ev["pkt"]}
     return {"e": "fuzz", "cls": ev.get("cls", "replay"), "pkt": ev["pkt"], "ts": ev["ts"], "ref": ev["ref"]}
 
 
@@ -161,7 +171,10 @@ def coverage(run, events, rejected, m, gen_results, val_results, cfg):
                 "Round-trip inputs: packets built and XXTEA-encrypted by TLC from Gen_Flarm's field tuples "
                 "(type = i mod 16, flags cycling, both key tables, boundary and random addresses/times, "
                 "altitude sweep, references over the globe, offsets uniform in +-3.3/+-6.7 deg or on the "
-                "window edges, one in eleven a steady turn whose extrapolated track is exactly north). Totality inputs: seeded byte strings of length 0..40 (biased to a valid "
+                "window edges, one in eleven a steady turn whose extrapolated track is exactly north; two in 29 "
+                "a twin pair - same value fed to the key obscuring, other key table - decoded back to back in "
+                "both orders; one packet and one totality input in 10/16 decoded a second time at the end of "
+                "the run and required to give the identical result). Totality inputs: seeded byte strings of length 0..40 (biased to a valid "
                 "magic byte), extreme times, extreme and non-finite references. Non-trivial = the decoder "
                 "returned a record (header, decryption and all numeric fields were exercised); distinct = "
                 "distinct (bytes, time, reference).",
@@ -205,7 +218,9 @@ def coverage(run, events, rejected, m, gen_results, val_results, cfg):
         "speeds (vertical, ground, ns/ew), gps status and the multiplier are only required to be finite; "
         "their values are outside the property",
         "harness trusted for: splitting/merging 16-bit halves, float -> scaled integer logging "
-        "(round; floor for the track), catch_unwind",
+        "(round; floor for the track), catch_unwind, making the calls in input order on one thread, "
+        "remembering the first outcome of an input that is decoded twice",
+        "decoding is read as a function of (bytes, time, reference): the result must not depend on earlier calls",
     ]
 
 
@@ -218,15 +233,21 @@ def check(run):
     core.log(f"M: {m.distinct} states, {m.wall:.1f}s")
     # G
     vectors, gen_results = generate(run, cfg["packets"], procs)
+    # every REPEAT-th packet is handed to the harness a second time, after all the others
+    # (twin pairs stay adjacent: the order of the vectors is not changed)
+    again = [dict(v, rep=2) for v in vectors if v["i"] % REPEAT == 3]
+    lines = [dict(v, rep=1) if v["i"] % REPEAT == 3 else v for v in vectors] + again
     vec_path = os.path.join(run.work, "vectors.ndjson")
-    core.write_ndjson(vec_path, vectors)
+    core.write_ndjson(vec_path, lines)
     core.log(f"G: {len(vectors)} packets, {max(r.wall for r in gen_results):.1f}s")
     # harness
     trace = os.path.join(run.work, "trace.ndjson")
     core.run_rs("c15", [vec_path, trace, run.seed, cfg["fuzz"]])
     events = core.read_ndjson(trace)
-    if len(events) != len(vectors) + cfg["fuzz"]:
-        raise core.ToolError(f"harness wrote {len(events)} events for {len(vectors)} vectors + {cfg['fuzz']} inputs")
+    fuzz_again = len([n for n in range(cfg["fuzz"]) if n % 16 == 5])
+    if len(events) != len(lines) + cfg["fuzz"] + fuzz_again:
+        raise core.ToolError(f"harness wrote {len(events)} events for {len(lines)} packets + "
+                             f"{cfg['fuzz']} + {fuzz_again} inputs")
     # V
     rejected, val_results = validate(run, events, procs)
     for r in val_results:
@@ -235,12 +256,25 @@ def check(run):
     judge(run, events, rejected)
     coverage(run, events, rejected, m, gen_results, val_results, cfg)
     run.cov["round_trip"]["families"] = dict(Counter(v.get("fam", "plain") for v in vectors))
+    run.cov["round_trip"]["twin_pairs"] = sum(1 for a, b in zip(vectors, vectors[1:])
+                                              if {a.get("fam"), b.get("fam")} == {"twin", "twin_original"})
+    run.cov["decoded_twice"] = sum(1 for e in events if "first" in e)
 
 
 def replay(run, path):
     with open(path) as f:
         rep = json.load(f)
-    inputs = [c["input"] for c in rep.get("cases", [])]
+    inputs = []
+    for c in rep.get("cases", []):
+        ctx = [dict(x) for x in c.get("context", [])]
+        one = dict(c["input"])
+        for x in ctx + [one]:
+            x.pop("rep", None)
+        if "deterministic" in c.get("clauses", []) and "p" in one:
+            n = len(inputs) + 1           # decode, then the context, then decode again
+            inputs += [dict(one, i=-n, rep=1)] + ctx + [dict(one, i=-n, rep=2)]
+        else:
+            inputs += ctx + [one]
     if not inputs:
         raise core.ToolError("replay file has no cases")
     inp = os.path.join(run.work, "replay_in.ndjson")
